@@ -105,6 +105,15 @@ def unjson(obj):
     return obj
 
 
+_CURRENT = {'in': None}
+
+
+def set_inputs(d):
+    """harness functions call this first so that a path that times out or aborts still has a
+    description of its symbolic inputs"""
+    _CURRENT['in'] = d
+
+
 def explore(fn, job, *, timeout_ms=10000, path_timeout_s=30.0, max_paths=None, wall_budget_s=None,
             max_cex=40, max_samples=3, realise_cap=64):
     """Explore fn with a fresh engine.  fn returns (post, info); info is a dict with
@@ -127,6 +136,7 @@ def explore(fn, job, *, timeout_ms=10000, path_timeout_s=30.0, max_paths=None, w
 
     def wrapped():
         state['n'] += 1
+        _CURRENT['in'] = None
         if state['n'] <= 2 or state['n'] % 97 == 0:
             sys.setprofile(profiler)
             try:
@@ -157,7 +167,13 @@ def explore(fn, job, *, timeout_ms=10000, path_timeout_s=30.0, max_paths=None, w
                                    'note': concretise(info.get('note'), model)})
         elif kind == 'timeout':
             model, info = payload
-            res['timeouts'].append({'job': job, 'model': str(model)[:500] if model is not None else None})
+            ent = {'job': job, 'model': str(model)[:500] if model is not None else None}
+            if model is not None and _CURRENT['in'] is not None:
+                try:
+                    ent['inputs'] = concretise(_CURRENT['in'], model)
+                except BaseException:
+                    pass
+            res['timeouts'].append(ent)
         elif kind == 'inconclusive':
             pass
 
@@ -331,6 +347,11 @@ class Report:
                 self.extra['unreachable_counterexamples_dropped'] = \
                     self.extra.get('unreachable_counterexamples_dropped', 0) + 1
                 continue
+            if not r.get('reproduced') and c.get('note') == 'path time budget exceeded':
+                # slow symbolic path, terminates concretely: not a hang; the path stays undecided
+                self.extra['path_timeouts_not_reproduced'] = \
+                    self.extra.get('path_timeouts_not_reproduced', 0) + 1
+                continue
             if not r.get('reproduced'):
                 self.harness_errors.append('counterexample did not reproduce on the unlifted package: %s -> %s'
                                            % (json.dumps(c)[:400], r.get('detail')))
@@ -363,6 +384,7 @@ class Report:
             self.harness_errors.append('coverage witnesses not reached: %s' % missing)
         conclusive = (not st['inconclusive_paths'] and not st['budget_exhausted_jobs']
                       and not st['unknown_queries']
+                      and not self.extra.get('path_timeouts_not_reproduced')
                       and all(s == 'discharged' for _, s in self.obligations))
         for kid, (what, n) in sorted(self.known_hits.items()):
             print('KNOWN-FINDING: property=%s %s [%s; %d counterexample(s) this run]'
@@ -397,6 +419,9 @@ class Report:
                 'known_findings_hit': {k: v[1] for k, v in self.known_hits.items()},
                 'conclusive': conclusive,
                 'harness_errors': self.harness_errors[:20],
+                'slowest_jobs': [{'job': r['job'], 'wall_s': r.get('wall_s'), 'paths': r['stats']['paths'],
+                                  'solver_time_s': r['stats']['solver_time_s']}
+                                 for r in sorted(self.results, key=lambda r: -(r.get('wall_s') or 0))[:12]],
                 'exhaustive': False,
                 **self.extra,
             },
